@@ -46,6 +46,14 @@ pub struct Case {
     /// async consumer only: every k-th not-ready read is cancelled (future dropped) and re-issued; 0 = never
     #[serde(default)]
     pub cancel_every: u8,
+    /// 0 plain reads; 1 every read is a vectored read (short first buffer); 3 blocking consumer: the reader is handed
+    /// to another OS thread once the first payload byte has been read
+    #[serde(default)]
+    pub quirk: u8,
+    /// the caller encodes the message once (to_bytes), THEN changes the header through header_mut() to
+    /// (version, operation-or-status, request-id), then streams it: the stream must carry the new header
+    #[serde(default)]
+    pub rehead: Option<(u16, u16, u32)>,
 }
 
 #[derive(Clone, Copy)]
@@ -79,7 +87,7 @@ fn next_size(sizes: &[u32], i: &mut usize) -> usize {
 /// judged not to end when it keeps producing: more data than expected, more Interrupted results than the source
 /// can have injected, or an unreasonable number of empty answers to non-empty reads. Reads into an empty buffer
 /// and Interrupted results are legal "no progress" steps and are not counted against the stream.
-fn consume_blocking<R: Read>(r: &mut R, sizes: &[u32], cap: usize, eintr_budget: u64) -> Consumed {
+fn consume_blocking<R: Read>(r: &mut R, sizes: &[u32], cap: usize, eintr_budget: u64, vectored: bool) -> Consumed {
     let mut c = new_consumed();
     let mut i = 0usize;
     let mut data_reads = 0u64;
@@ -91,7 +99,8 @@ fn consume_blocking<R: Read>(r: &mut R, sizes: &[u32], cap: usize, eintr_budget:
         let sz = next_size(sizes, &mut i);
         let mut buf = vec![0u8; sz];
         c.reads += 1;
-        match r.read(&mut buf) {
+        let res = if vectored && sz >= 2 { crate::drive::read_vectored_sync(r, &mut buf, i) } else { r.read(&mut buf) };
+        match res {
             Ok(n) if sz == 0 => {
                 c.zero_len_reads += 1;
                 if n != 0 {
@@ -158,7 +167,7 @@ async fn read_cancellable<R: AsyncRead + Unpin>(r: &mut R, buf: &mut [u8], cance
     }
 }
 
-async fn consume_async<R: AsyncRead + Unpin>(r: &mut R, sizes: &[u32], cap: usize, cancel_every: u8) -> Consumed {
+async fn consume_async<R: AsyncRead + Unpin>(r: &mut R, sizes: &[u32], cap: usize, cancel_every: u8, vectored: bool) -> Consumed {
     let mut c = new_consumed();
     let mut i = 0usize;
     let mut data_reads = 0u64;
@@ -173,7 +182,8 @@ async fn consume_async<R: AsyncRead + Unpin>(r: &mut R, sizes: &[u32], cap: usiz
         let mut buf = vec![0u8; sz];
         c.reads += 1;
         let cancel = cancel_every > 0 && (pendings + 1) % cancel_every as u64 == 0;
-        let res = match read_cancellable(r, &mut buf, cancel).await {
+        let attempt = if vectored && sz >= 2 && !cancel { Some(crate::drive::read_vectored_async(r, &mut buf, i).await) } else { read_cancellable(r, &mut buf, cancel).await };
+        let res = match attempt {
             Some(x) => x,
             None => {
                 // cancelled while not ready: nothing may have been consumed; yield, then retry with the same size
@@ -270,12 +280,21 @@ impl Prop for C08 {
             max_events: 4096,
         };
         let n = payload.len();
-        let (style, trace) = gen_trace(rng, n.min(2048), n, &[], &opts);
+        let (style, mut trace) = gen_trace(rng, n.min(2048), n, &[], &opts);
+        crate::gen::add_rare_events(rng, &mut trace, &opts, true);
         let nb = rng.usize(0, 5);
         let buf_sizes = (0..nb).map(|_| *rng.pick(&[0u32, 1, 1, 2, 7, 64, 4095, 4096, 4097, 8192, 8193, 65536])).collect::<Vec<_>>();
         let buf_sizes = if buf_sizes.iter().all(|&s| s == 0) { vec![] } else { buf_sizes };
         let cancel_every = if consumer == Consumer::Async && rng.chance(1, 3) { rng.range(1, 3) as u8 } else { 0 };
-        Case { msg, payload, kind, consumer, spec: SourceSpec { trace, fault: None }, style: STYLES[style].to_string(), buf_sizes, cancel_every }
+        let quirk = if !rng.chance(1, 4) {
+            0
+        } else if consumer == Consumer::Blocking && kind == Kind::Async && rng.chance(1, 2) {
+            crate::drive::QUIRK_HANDOVER
+        } else {
+            crate::drive::QUIRK_VECTORED
+        };
+        let rehead = if rng.chance(1, 6) { Some((*rng.pick(&[0x0100u16, 0x0101, 0x0200, 0x0201, 0x7f7f]), rng.below(0x10000) as u16, rng.next() as u32)) } else { None };
+        Case { msg, payload, kind, consumer, spec: SourceSpec { trace, fault: None }, style: STYLES[style].to_string(), buf_sizes, cancel_every, quirk, rehead }
     }
 
     fn run(&self, case: &Case, record: bool) -> RunReport {
@@ -292,7 +311,18 @@ impl Prop for C08 {
             Kind::Async => *msg.payload_mut() = IppPayload::new_async(src.async_reader()),
         }
         // the expected header+attributes come from the very instance that is then consumed (same map order)
-        let head = msg.to_bytes().to_vec();
+        let mut head = msg.to_bytes().to_vec();
+        if let Some((v, code, id)) = case.rehead {
+            // an already encoded message is changed through header_mut(): only the 8 header octets change
+            let h = msg.header_mut();
+            h.version = ipp::model::IppVersion(v);
+            h.operation_or_status = code;
+            h.request_id = id;
+            head[0..2].copy_from_slice(&v.to_be_bytes());
+            head[2..4].copy_from_slice(&code.to_be_bytes());
+            head[4..8].copy_from_slice(&id.to_be_bytes());
+            rep.count("header_changed_after_first_encoding", 1);
+        }
         let mut expected = head.clone();
         if case.kind != Kind::Empty {
             expected.extend_from_slice(&case.payload);
@@ -300,14 +330,66 @@ impl Prop for C08 {
         let cap = expected.len() + 64;
         let sizes = case.buf_sizes.clone();
         let n_events = case.spec.trace.len() as u64;
+        let quirk = case.quirk;
+        let head_len = head.len();
+        match quirk {
+            crate::drive::QUIRK_VECTORED => rep.count("consumer_uses_vectored_reads", 1),
+            crate::drive::QUIRK_HANDOVER => rep.count("reader_handed_to_another_thread_mid_stream", 1),
+            _ => {}
+        }
         let mut exec_stats = crate::exec::ExecStats::default();
         let got: Result<Consumed, (String, String)> = match case.consumer {
             Consumer::Blocking => match guarded(move || {
                 let eintr_budget = n_events + 16;
                 let mut r = msg.into_read();
-                consume_blocking(&mut r, &sizes, cap, eintr_budget)
+                if quirk == crate::drive::QUIRK_HANDOVER {
+                    // this thread reads until the first payload byte has arrived, then the reader moves to another thread
+                    let mut first = Vec::new();
+                    let mut eintr = 0u64;
+                    let mut ended = false;
+                    while first.len() <= head_len {
+                        let mut buf = vec![0u8; 4096];
+                        match r.read(&mut buf) {
+                            Ok(0) => {
+                                ended = true;
+                                break;
+                            }
+                            Ok(n) => first.extend_from_slice(&buf[..n]),
+                            Err(e) if e.kind() == std::io::ErrorKind::Interrupted && eintr <= eintr_budget => eintr += 1,
+                            Err(e) => {
+                                let mut c = new_consumed();
+                                c.bytes = first;
+                                c.err = Some(ErrKind::from_io(e.kind()));
+                                return Ok(c);
+                            }
+                        }
+                    }
+                    if ended {
+                        // nothing left to hand over: confirm end-of-stream here
+                        let mut c = consume_blocking(&mut r, &sizes, cap, eintr_budget, false);
+                        first.extend_from_slice(&c.bytes);
+                        c.bytes = first;
+                        return Ok(c);
+                    }
+                    let (tx, rx) = std::sync::mpsc::channel();
+                    std::thread::spawn(move || {
+                        let c = consume_blocking(&mut r, &sizes, cap, eintr_budget, false);
+                        let _ = tx.send(c);
+                    });
+                    return match rx.recv_timeout(std::time::Duration::from_secs(30)) {
+                        Ok(mut c) => {
+                            first.extend_from_slice(&c.bytes);
+                            c.bytes = first;
+                            c.eintr_seen += eintr;
+                            Ok(c)
+                        }
+                        Err(_) => Err("a blocking read did not return within 30 s after the reader moved to another thread (every not-ready result of the payload source was followed by its wake-up)".to_string()),
+                    };
+                }
+                Ok(consume_blocking(&mut r, &sizes, cap, eintr_budget, quirk == crate::drive::QUIRK_VECTORED))
             }) {
-                Ok(c) => Ok(c),
+                Ok(Ok(c)) => Ok(c),
+                Ok(Err(m)) => Err(("stream-stalls-after-thread-handover".into(), m)),
                 Err(p) => Err(("panic-reading-stream".into(), p)),
             },
             Consumer::Async => {
@@ -317,7 +399,7 @@ impl Prop for C08 {
                 match guarded(move || {
                     let fut = async move {
                         let mut r = Box::pin(msg.into_async_read());
-                        consume_async(&mut r, &sizes, cap, cancel_every).await
+                        consume_async(&mut r, &sizes, cap, cancel_every, quirk == crate::drive::QUIRK_VECTORED).await
                     };
                     run_scripted(&core2, fut, max_polls)
                 }) {
@@ -344,6 +426,13 @@ impl Prop for C08 {
         rep.count("chunks_delivered", st.gives);
         rep.count("short_reads", st.short_gives);
         rep.count("eintr_fired", st.eintr);
+        rep.count("slow_calls_on_the_clock_seam", st.slow_calls);
+        if st.eintr > 1024 {
+            rep.count("runs_with_more_than_1024_interrupted_results", 1);
+        }
+        if st.pend_inline > 1024 {
+            rep.count("runs_with_more_than_1024_not_ready_results", 1);
+        }
         rep.count("pending_inline_fired", st.pend_inline);
         rep.count("pending_deferred_fired", st.pend_after);
         rep.count("pending_cross_thread_fired", st.pend_cross);
@@ -428,6 +517,12 @@ impl Prop for C08 {
         if c.cancel_every != 0 {
             out.push(Case { cancel_every: 0, ..c.clone() });
         }
+        if c.quirk != 0 {
+            out.push(Case { quirk: 0, ..c.clone() });
+        }
+        if c.rehead.is_some() {
+            out.push(Case { rehead: None, ..c.clone() });
+        }
         if !c.buf_sizes.is_empty() {
             out.push(Case { buf_sizes: vec![], ..c.clone() });
             for i in 0..c.buf_sizes.len() {
@@ -445,7 +540,7 @@ impl Prop for C08 {
     }
 
     fn rule(&self) -> String {
-        "Each run: a seeded model message (crate-built, hash keys seeded) with payload kind in {empty, blocking source, async source} x consumer in {into_read via blocking Read, into_async_read via AsyncRead on the scripted executor}; the payload source is scripted (composition into chunks; EINTR for blocking sources; Pending with inline / deferred / cross-thread wake and spurious polls for async sources — cross-thread and inline only under the real block_on bridge); the consumer's buffer size varies per call (0, 1, 2, 7, 64, 8 KiB, 64 KiB); in a third of the async-consumer runs every k-th not-ready read is cancelled (its future dropped) and re-issued. Oracle: concatenation of everything returned == to_bytes() of the same instance ++ payload; first end-of-stream exactly there and sticky for 3 more reads; payload source handed out exactly its length; no error, no panic; executor invariants. distinct_nontrivial = distinct hashes of (payload-source call sequence, cell of the matrix, buffer-size pattern, header length) among runs with a non-empty payload and at least one short read / EINTR / Pending / non-default buffer pattern."
+        "Each run: a seeded model message (crate-built, hash keys seeded) with payload kind in {empty, blocking source, async source} x consumer in {into_read via blocking Read, into_async_read via AsyncRead on the scripted executor}; the payload source is scripted (composition into chunks; EINTR for blocking sources; Pending with inline / deferred / cross-thread wake and spurious polls for async sources — cross-thread and inline only under the real block_on bridge); the consumer's buffer size varies per call (0, 1, 2, 7, 64, 8 KiB, 64 KiB); in a third of the async-consumer runs every k-th not-ready read is cancelled (its future dropped) and re-issued; in a quarter of the runs the consumer uses vectored reads (short first buffer) or - blocking consumer of an async payload - hands the reader to another OS thread once the first payload byte has arrived; in a sixth of the runs the message is encoded once, then its header is changed through header_mut() before it is streamed (the stream must carry the new header octets). Rare schedule events: a burst of 1025-5000 consecutive Interrupted / not-ready results; one source call that takes 260-1500 ms on the clock seam (LD_PRELOAD clock_gettime; nothing really waits). Oracle: concatenation of everything returned == to_bytes() of the same instance ++ payload; first end-of-stream exactly there and sticky for 3 more reads; payload source handed out exactly its length; no error, no panic; executor invariants. distinct_nontrivial = distinct hashes of (payload-source call sequence, cell of the matrix, buffer-size pattern, header length) among runs with a non-empty payload and at least one short read / EINTR / Pending / non-default buffer pattern."
             .into()
     }
     fn assumptions(&self) -> Vec<String> {
